@@ -15,6 +15,7 @@ import (
 	"sort"
 	"strings"
 	"sync"
+	"time"
 )
 
 // ---- deterministic PRNG: every random choice derives from one state ----
@@ -166,6 +167,18 @@ func main() {
 		}
 		return f, bufio.NewWriterSize(f, 1<<20)
 	}
+	// watchdog: a component that does not finish is a failure to report, not a stall to sit out
+	limit := 25 * time.Minute
+	if *tier == "thorough" {
+		limit = 100 * time.Minute
+	}
+	go func() {
+		time.Sleep(limit)
+		buf := make([]byte, 1<<20)
+		buf = buf[:runtime.Stack(buf, true)]
+		fmt.Fprintf(os.Stderr, "harness watchdog: component %s still running after %v\n%s\n", *comp, limit, buf)
+		os.Exit(3)
+	}()
 	cf, cw := open("cases.tsv")
 	imf, iw := open("impl.tsv")
 	of, ow := open("oracle.jsonl")
